@@ -154,6 +154,15 @@ def run(tier):
                 ctx.violation({"layer": "tok", "cases": [c], "implementation_answer": o[:400], "why": "notify_one panics under the DFS scheduler"})
         elif not o.startswith("T=ok") and not (tag and tag in known):
             ctx.violation({"layer": "tok", "cases": [c], "implementation_answer": o[:400], "why": "exhaustive DFS run of a correct Notify program fails"})
+    # the leaf futures of the wrappers wake the waker they were polled with (sub-waker combinator, exhaustive DFS);
+    # futures that wait on a BatchSemaphore are left out: known finding F35
+    sub = ["tokprobe subwaker 2", "tokprobe subwaker 3", "tokprobe subwaker 4", "tokprobe subwaker 5"]
+    so = ctx.run_impl("tok", sub)
+    for c, o in zip(sub, so):
+        if not o.startswith("PROBE OK"):
+            ctx.violation({"layer": "tok", "cases": [c], "implementation_answer": o[:400],
+                           "why": "a tokio-compatible leaf future (oneshot receiver / Notified / watch changed / yield_now) awaited through a sub-waker combinator never completes: it does not wake the waker it was polled with"})
+    ctx.dist("probes.subwaker", len(sub))
     ctx.disagreements_checked = len(mism)
     if "C19-F6" in known:
         mism = [i for i in mism if i not in f6]
